@@ -234,8 +234,7 @@ C13_Graph_C ==
 C13_Commit_A == Op("Commit") /\ OkRes /\ E.x.committed /\ HasObs(Post) /\ dpre.has
 C13_Commit_C ==
     LET nb == Core!Blocks(NewItems) np == Core!Packs(NewItems) IN
-    /\ Cardinality(nb) = 1
-    /\ Cardinality(np) <= 1
+    /\ Cardinality(nb) = 1                                   \* exactly one new block (how many packs is not the property's business)
     /\ NewItems = nb \cup np
     /\ \A b \in nb :
           /\ b.ok
